@@ -68,7 +68,7 @@ def confirm(prop, i):
 
 
 if __name__ == "__main__":
-    todo = [(p, i) for p in sys.argv[1:] for i in (1, 2, 3, 4)]
+    todo = [(p, i) for p in sys.argv[1:] for i in (1, 2, 3, 4, 5, 6)]
     with ThreadPoolExecutor(4) as ex:
         for prop, i, st, extra in ex.map(lambda a: confirm(*a), todo):
             if st != "missing":
